@@ -291,24 +291,47 @@ def search(ctx, broken, disagreements):
     cases, hist = _lens_cases(ctx, ctx.n(60, 600), 6)
     for w in hist.get('record_shape_violations', []):
         return w
+    out = []
     for c in cases:
         bad = oracles.check_intensity(c['surfs'], c['recs'], c['w'])
         if bad:
-            return {'spec': c['spec'], 'launch': c['launch'], 'oracle': bad[:4], 'violates_property': True}
+            out.append({'spec': c['spec'], 'launch': c['launch'], 'oracle': bad[:4], 'violates_property': True})
     rec, _ = _records_oracle(ctx, ctx.n(20, 150))
-    if rec:
-        return rec[0]
-    return None
+    out += rec[:3]
+    out.sort(key=lambda w: matches_finding(w, {'id': 'absorption-negative-distance'}))
+    return out[:12] or None
 
 
 def matches_finding(w, f):
+    orc = w.get('oracle') or []
+    if f['id'] == 'absorption-negative-distance':
+        # every complaint sits on a segment that runs BACKWARDS inside an absorbing medium
+        return bool(orc) and all(o.get('kind') in ('intensity-factor', 'intensity-increase', 'intensity-range')
+                                 and o.get('backward_in_absorber') is True for o in orc)
     if f['id'] != 'polarized-intensity-overwrite':
         return False
-    orc = w.get('oracle') or []
     return bool(orc) and all(o.get('kind') == 'polarized-intensity-resurrected' for o in orc)
 
 
+NEG_DIST_REPLAY = {
+    'object_thickness': float('inf'),
+    'surfaces': [{'type': 'standard', 'radius': float('inf'), 'thickness': 0.01, 'material': ['ideal', 1.5, 0.0035], 'is_stop': True},
+                 {'type': 'standard', 'radius': -20.0, 'conic': -1.0, 'thickness': 30.0, 'material': 'air'}],
+    'aperture': ['EPD', 6.0], 'field_type': 'angle', 'fields': [[0.0, 0.0, 0.0, 0.0]],
+    'wavelengths': [[0.55, True]], 'telecentric': False}
+
+
 def replay_finding(ctx, f):
+    if f['id'] == 'absorption-negative-distance':
+        import warnings
+        import lensgen, tracecorr, oracles
+        warnings.simplefilter('ignore')
+        o = lensgen.build(NEG_DIST_REPLAY)
+        r = tracecorr.impl_trace(o, 0.0, 0.0, 0.0, 0.7, 0.55)
+        if r[0] != 'ok':
+            return None
+        bad = oracles.check_intensity(lensgen.model_surfaces(o, 0.55), r[1], 0.55)
+        return any(b.get('backward_in_absorber') for b in bad)
     if f['id'] != 'polarized-intensity-overwrite':
         return None
     return bool(_polarized_oracle(ctx, 4))
